@@ -57,7 +57,7 @@ theorem build_race_benign_warm_cache (U : Universe) (w : World) (progs : List Pr
 def oneU : Universe :=
   ⟨[ { name := "PA".toList, base := none, isModel := true, inPkg := true, ns := some (some "urn:a".toList),
        mname := none, targetNs := none, moduleNs := none, globalType := true, inner := false, bad := false,
-       fields := [⟨"x".toList, .element, none, none, none, none⟩] } ]⟩
+       fields := [Field.elem "x".toList] } ]⟩
 
 def w1 : World := ⟨1, 0⟩
 def qPA : Str := "{urn:a}PA".toList
@@ -183,10 +183,10 @@ theorem published_index_complete (U : Universe) (w : World) (progs : List Prog)
 def scanU : Universe :=
   ⟨[ { name := "PA".toList, base := none, isModel := true, inPkg := true, ns := some (some "urn:a".toList),
        mname := none, targetNs := none, moduleNs := none, globalType := true, inner := false, bad := false,
-       fields := [⟨"x".toList, .element, none, none, none, none⟩] },
+       fields := [Field.elem "x".toList] },
      { name := "PB".toList, base := none, isModel := true, inPkg := true, ns := some (some "urn:b".toList),
        mname := none, targetNs := none, moduleNs := none, globalType := true, inner := false, bad := false,
-       fields := [⟨"x".toList, .element, none, none, none, none⟩, ⟨"y".toList, .element, none, none, none, none⟩] } ]⟩
+       fields := [Field.elem "x".toList, Field.elem "y".toList] } ]⟩
 
 def w2 : World := ⟨2, 0⟩
 
@@ -247,7 +247,7 @@ theorem reset_scan_counterexample : ¬ ConcurrentSafe oneU w1 (doBuildXsi oneU w
 def badU : Universe :=
   ⟨[ { name := "T".toList, base := none, isModel := true, inPkg := true, ns := some (some "urn:a".toList),
        mname := none, targetNs := none, moduleNs := none, globalType := true, inner := false, bad := true,
-       fields := [⟨"x".toList, .element, none, none, none, none⟩] } ]⟩
+       fields := [Field.elem "x".toList] } ]⟩
 
 /-- (former finding C19-F3) two by-fields scans on a cold context, each iterating
 the dict object it published itself, meet an unbuildable class: the second
